@@ -19,7 +19,7 @@ import (
 func init() {
 	register(&propDef{
 		id:      "C33",
-		explain: "Structural necessary conditions of 'in-memory pipes and the in-memory listener behave like reliable byte streams / a listener', on every path of the functions named (no interleaving is explored): (L1) InmemoryListener.DialWithLocalAddr returns a connection with a nil error only on paths on which the server end was handed to the accept queue, and on every error return both ends of the freshly made pipe were closed; (L2) InmemoryListener.Accept, once it has taken a connection from the queue, either signals the dialer and returns that connection with a nil error, or closes it and returns an error without having signalled the dialer (the signal is what makes the dial succeed) - it never drops it; (L3) Close of the listener closes the done channel only under a false 'closed' flag, raises the flag after, both under the listener's lock; (P1) pipeConn.Write reports success exactly on the paths on which the data buffer was handed to the peer's queue; (P2) the reader moves on to the next buffer only when the current one is exhausted (so nothing unread is dropped); (P3) the reader reports end-of-stream or a timeout only after a non-blocking look at the queue, made after the blocking wait was ended by the stop or deadline signal, found it empty (bytes written before Close stay readable); (P4) PipeConns.Close closes the stop channel at most once, under its lock, and (E8) the deadline channel and the closed flag are only accessed under their locks. Not decided: ordering and content of the bytes under interleavings, deadlines, blocking behaviour, fairness between Dial and Close.",
+		explain: "Structural necessary conditions of 'in-memory pipes and the in-memory listener behave like reliable byte streams / a listener', on every path of the functions named (no interleaving is explored): (L1) InmemoryListener.DialWithLocalAddr returns a connection with a nil error only on paths on which the server end was handed to the accept queue, and on every error return both ends of the freshly made pipe were closed; (L2) InmemoryListener.Accept, once it has taken a connection from the queue, either signals the dialer and returns that connection with a nil error, or closes it and returns an error without having signalled the dialer (the signal is what makes the dial succeed) - it never drops it; (L3) Close of the listener closes the done channel only under a false 'closed' flag, raises the flag after, both under the listener's lock; (P1) pipeConn.Write reports success exactly on the paths on which the data buffer was handed to the peer's queue; (P2) the reader moves on to the next buffer, and gives the current one back to its pool, only when the current one is exhausted - decided in the zone domain from the guarding comparison of len(bb) (so nothing unread is dropped or overwritten); (P3) the reader reports end-of-stream or a timeout only after a non-blocking look at the queue, made after the blocking wait was ended by the stop or deadline signal, found it empty (bytes written before Close stay readable); (P4) PipeConns.Close closes the stop channel at most once, under its lock, and (E8) the deadline channel and the closed flag are only accessed under their locks. Not decided: ordering and content of the bytes under interleavings, deadlines, blocking behaviour, fairness between Dial and Close.",
 		run:     runC33,
 	})
 }
@@ -332,6 +332,46 @@ func runC33(p *Prog, r *Report) {
 			})
 		}
 		r.Floor("P2", "call sites of readNextByteBuffer", n, 1)
+		// P2b: the same for every place that gives the current buffer back to its pool. The read cursor (bb) is a
+		// slice of the buffer (b): releasing b while bb is not empty hands the unread bytes to the next Write of any
+		// pipe in the process, which overwrites them. A release is made in the routine that fetches the next buffer
+		// (whose call sites P2 checks) or under a test that found the cursor empty.
+		nrel := 0
+		for _, fn := range p.funcsIn("fasthttputil") {
+			allCalls(fn, func(b *ssa.BasicBlock, c ssa.CallInstruction) {
+				f := c.Common().StaticCallee()
+				if f == nil || f.Name() != "releaseByteBuffer" || len(c.Common().Args) != 1 || !fieldLoadNamed(c.Common().Args[0], "b") {
+					return
+				}
+				if recvTypeName(fn) != "pipeConn" {
+					return
+				}
+				nrel++
+				ok := fn == next
+				for _, g := range guardsOf(b) {
+					bo, isBo := g.Cond.(*ssa.BinOp)
+					if !isBo || ok {
+						continue
+					}
+					for _, o := range []ssa.Value{bo.X, bo.Y} {
+						if lc, isCall := o.(*ssa.Call); isCall {
+							if bi, isBi := lc.Call.Value.(*ssa.Builtin); isBi && bi.Name() == "len" && fieldLoadNamed(lc.Call.Args[0], "bb") {
+								z := newZone()
+								nd := z.node(lc)
+								z.add(0, 0, nd, 0, 0)
+								z.assumeCmp(bo.Op, bo.X, bo.Y, g.Pol)
+								if !z.infeasible() && z.entails(nd, 0, 0, 0, 0) {
+									ok = true
+								}
+							}
+						}
+					}
+				}
+				r.Check("P2", funcName(fn)+": the current buffer goes back to its pool only when the read cursor is exhausted", ok, p.Pos(c.Pos()),
+					"releaseByteBuffer(c.b) outside the next-buffer routine and not under a test that found len(c.bb) == 0: the cursor still points into the released buffer, the next Write of any pipe reuses and overwrites it, and the reader gets those bytes instead of the ones written to it")
+			})
+		}
+		r.Floor("P2", "releases of the reader's current buffer", nrel, 1)
 		// ---- P3: EOF / timeout only after a non-blocking look at the queue ----
 		n3 := 0
 		for _, b := range next.Blocks {
